@@ -417,7 +417,25 @@ class Ctx:
     pass
 
 
-def run_case(cx, case, tag, tamper_budget=0):
+def run_case(cx, case, tag):
+    """`_run_case`, with an exception raised inside /repo code turned into an oracle failure that carries the input
+    (an exception of the harness itself is re-raised: infrastructure error, not a verdict)."""
+    import traceback
+    from vcore import REPO
+    try:
+        return _run_case(cx, case, tag)
+    except Infra:
+        raise
+    except Exception as exc:  # noqa: BLE001
+        tb = traceback.format_exc()
+        if (str(REPO) + "/spsdk") not in tb:
+            raise
+        cx.s_export.expect(False, case, "the implementation raised while an exported / parsed AHAB image was inspected",
+                           f"{type(exc).__name__}: {exc}"[:300])
+        return None
+
+
+def _run_case(cx, case, tag):
     """Everything the property says about ONE configuration, on the real code (+ correspondence with the model)."""
     from spsdk.exceptions import SPSDKError
     from spsdk.image.ahab.ahab_image import AHABImage
@@ -619,6 +637,13 @@ def finding_for_tamper(inp, original, parsed):
     (`get_signature_data() = self._export()[:offset]`), so a corrupted byte that parse() does not keep (reserved fields,
     alignment padding, IV field of a plain entry, SRK parameter-length words) is 'healed' and goes unreported.
     Predicate: the parsed corrupted image re-exports with the ORIGINAL byte at the flipped position."""
+    case, (pos, bit) = inp["case"], inp["flip"]
+    csize = 0x400 if case["ver"] == 1 else 0x4000
+    for k, cc in enumerate(case["containers"]):
+        # C06-srk-set-downgrade: bit 1 of the flags byte turns SRK set "oem" (2) into "none" (0); verify() then skips the
+        # authenticity check although SRK table and signature are still present
+        if cc["srk"] and pos == k * csize + 4 and bit == 1:
+            return "C06-srk-set-downgrade"
     if parsed is None:
         return None
     r = pyres(parsed.export)
@@ -986,7 +1011,8 @@ def run(ck):
                             "every used_srk_id, revoke masks 0..15, fuse/sw versions at limits, optional blob + encrypted images) plus random "
                             "extra cases; non-trivial = distinct configuration")
     cx.s_tamper = ck.stream("tamper", "single-bit flips over authenticated bytes of exported images (signed range incl. signature, image bytes, "
-                            "hash fields of unsigned containers; sampled + first/last byte of each class); non-trivial = distinct (image, bit)")
+                            "hash fields of unsigned containers; sampled + first/last byte of each class + every bit of one signed container "
+                            "header); non-trivial = distinct (image, bit)")
     cx.s_verify = ck.stream("verify_range", "one attribute of a valid unsigned image at a time set to legal extreme values and to the first illegal ones "
                             "(container flags/sw/fuse/length/tag/version, entry offset/size/load/entry/meta/flags/hash, signature-block offsets, "
                             "blob fields, image and container counts): verify() reports an error iff the model's verifier does; "
@@ -998,7 +1024,7 @@ def run(ck):
     verify_stream(cx, ck.budget(1, 12))
     combos = [(r, tm) for r in rows_l for tm in TARGET_MEMS]
     rng.shuffle(combos)
-    extra = ck.budget(40, 1500)
+    extra = ck.budget(25, 1500)
     n = 0
     infos = []
     for row, tm in combos:
@@ -1021,8 +1047,12 @@ def run(ck):
         pool = [ci for ci in infos if ci[1].get("check_ok")]
         rng.shuffle(pool)
         pool.sort(key=lambda ci: -sum(1 for c in ci[0]["containers"] if c["srk"]))      # signed ones first
-        for case, info in pool[: ck.budget(45, 500)]:
-            tamper(cx, case, info, per)
+        for n_t, (case, info) in enumerate(pool[: ck.budget(36, 500)]):
+            extra_picks = []
+            if n_t < ck.budget(1, 12) and case["containers"][0]["srk"]:
+                # systematic part: every bit of the 16-byte header of the first (signed) container
+                extra_picks = [("signed", p_, b_) for p_ in range(16) for b_ in range(8)]
+            tamper(cx, case, info, per, extra_picks=extra_picks)
     ck.extra["distribution"] = cx.dist
     ck.extra["flips"] = cx.flips
     ck.extra["signature_discharger"] = "cryptography (direct), key files of the configuration"
